@@ -14,6 +14,7 @@ NOT_A_VIOLATION = {
     'C04-6': 'judged not decidable by C04 as stated: the order in which a loop-region change and a seek written in the same period take effect is not part of the property (per-kind mailboxes; either order is some sequential order of the two calls); see 12.1',
 }
 LIMIT = {
+    'C16-10': 'not caught: the window it opens (a track added while the rate change is fanned out) lies inside the class of schedules the generator avoids while the open finding C16-stale-rate-on-queued-track is listed (on the unchanged tree a track added just before the change is already left at the old rate); see 12.1',
     'C07-4': 'not caught: needs a switch between two loads inside one function (yield-point granularity, section 7)',
 }
 for d in sorted(glob.glob('/verif/seeded/C*-*'), key=natural):
